@@ -219,6 +219,19 @@ pub fn c16(out: &mut dyn Write, tier: &str, rng: &mut Rng, st: &mut Stats) {
         let edges: Vec<(String, String)> = (0..m).map(|_| (rng.pick(&names[..]).clone(), rng.pick(&names[..]).clone())).collect();
         cases.push((edges, rng.chance(1, 2), rng.chance(1, 2)));
     }
+    // graphs on 12 and 13 vertices, about half of the ordered pairs present, with --all (no copies: 12 or 13 variables)
+    let nbig = if tier == "thorough" { 150 } else { 10 };
+    for i in 0..nbig {
+        let k = 12 + (i % 2);
+        let names: Vec<String> = (0..k).map(|j| format!("w{}", j)).collect();
+        let mut edges: Vec<(String, String)> = Vec::new();
+        for x in 0..k { for y in 0..k { if x != y && rng.chance(1, 2) { edges.push((names[x].clone(), names[y].clone())); } } }
+        // every vertex must occur
+        for x in 0..k { if !edges.iter().any(|(p, q)| *p == names[x] || *q == names[x]) { edges.push((names[x].clone(), names[(x + 1) % k].clone())); } }
+        for j in (1..edges.len()).rev() { let r = rng.below(j as u64 + 1) as usize; edges.swap(j, r); }
+        st.hit("graph.twelve-or-more-vertices");
+        cases.push((edges, rng.chance(1, 2), true));
+    }
     for (edges, u, a) in cases {
         let csv: String = edges.iter().map(|(x, y)| format!("{},{}\n", x, y)).collect();
         let mut args: Vec<String> = Vec::new();
@@ -253,10 +266,10 @@ pub fn c16(out: &mut dyn Write, tier: &str, rng: &mut Rng, st: &mut Stats) {
 }
 
 fn sudoku_rename(name: &str) -> Option<usize> {
-    // `_c_is_d` -> c * 16 + d
+    // `_c_is_d` -> c * 1024 + d
     let rest = name.strip_prefix('_')?;
     let (c, d) = rest.split_once("_is_")?;
-    Some(c.parse::<usize>().ok()? * 16 + d.parse::<usize>().ok()?)
+    Some(c.parse::<usize>().ok()? * 1024 + d.parse::<usize>().ok()?)
 }
 
 pub fn c17(out: &mut dyn Write, tier: &str, rng: &mut Rng, st: &mut Stats) {
@@ -315,6 +328,10 @@ pub fn c17(out: &mut dyn Write, tier: &str, rng: &mut Rng, st: &mut Stats) {
         if rng.chance(1, 3) { let keep_chars = rng.below(82) as usize; s = s.chars().take(keep_chars).collect(); }
         cases.push((3, s));
     }
+    // root 4 (and 5 in the thorough tier): numbers of two digits; structure only (4096 variables)
+    cases.push((4, String::new()));
+    cases.push((4, "1..4...........G".to_string() + &".".repeat(230) + "7.3......9"));
+    if tier == "thorough" { cases.push((5, "12345".to_string())); cases.push((4, "9".repeat(256))); }
     for (root, puzzle) in cases {
         let (class, stdout, _) = run_tool("sudoku_gen", &["-r".into(), root.to_string()], puzzle.as_bytes(), OutArg::AfterInput, 120, st);
         let stripped: String = puzzle.chars().filter(|c| !c.is_whitespace()).collect();
@@ -391,8 +408,10 @@ pub fn c18(out: &mut dyn Write, tier: &str, rng: &mut Rng, st: &mut Stats) {
     let names_prefix = ["v1", "v10", "v2", "v1B", "v"];
     let path = format!("{}/c18_edges.csv", scratch());
     for i in 0..n {
-        let k = 2 + rng.below(3) as usize;
-        let m = rng.below(7) as usize;
+        // every tenth colouring problem: ten to thirteen colours (two-digit colour numbers) on two or three vertices
+        let many_colours = i % 20 == 11;
+        let k = if many_colours { 2 + rng.below(2) as usize } else { 2 + rng.below(3) as usize };
+        let m = if many_colours { 1 + rng.below(3) as usize } else { rng.below(7) as usize };
         let names = if i % 4 >= 2 { &names_prefix } else { &names_plain };
         let edges: Vec<(String, String)> = (0..m).map(|_| (names[rng.below(k as u64) as usize].to_string(), names[rng.below(k as u64) as usize].to_string())).collect();
         let csv: String = edges.iter().map(|(a, b)| format!("{},{}\n", a, b)).collect();
@@ -419,7 +438,7 @@ pub fn c18(out: &mut dyn Write, tier: &str, rng: &mut Rng, st: &mut Stats) {
             let simple: Vec<(String, String)> = edges.iter().filter(|(a, b)| a != b).cloned().collect();
             let csv: String = simple.iter().map(|(a, b)| format!("{},{}\n", a, b)).collect();
             std::fs::write(&path, csv).unwrap();
-            let kcol = rng.below(4) as usize;
+            let kcol = if many_colours { st.hit("colors.ten-or-more"); 10 + rng.below(4) as usize } else { rng.below(4) as usize };
             let args = vec!["--convert".to_string(), path.clone(), "--colors".to_string(), kcol.to_string()];
             let (class, stdout, _) = run_tool("random_graph_gen", &args, &[], OutArg::DashO, 60, st);
             let outp = read_edges(&stdout, false).map(|es| pairs_field(&es)).unwrap_or_else(|| "UNREADABLE".to_string());
